@@ -5,7 +5,7 @@
 
 1. scratch worktree /tmp/mut_eval (created once, removed with --cleanup): the demo must exit 0 on the unchanged
    library and 1 with the patch; the existing tests of the given directories must pass with the patch
-   (static re-build of the library and of the test programs: /tmp/mut_tools/*.sh).
+   (static re-build of the library and of the test programs: /tmp/mut_tools/*.sh, copies kept in tools/mut_tools/).
 2. the patch is applied to /repo (git apply), the registered checks are run, and /repo is restored
    (git checkout -- .) straight afterwards.
 3. everything is recorded in /verif/seeded/<name>/ (patch.diff, demo.cc, meta.json)."""
